@@ -32,6 +32,7 @@ package fasthttp
 // the "eventually" side of the counter checks.
 
 import (
+	"errors"
 	"bufio"
 	"fmt"
 	"io"
@@ -120,6 +121,9 @@ type vpC12SrvConn struct {
 	remote net.Addr
 	closes atomic.Int32
 	closed chan struct{} // closed on first Close()
+	// the transport reports an error from Close (a socket the peer has reset does): the connection is
+	// gone all the same and its slots have to be given back
+	closeErr bool
 }
 
 func (c *vpC12SrvConn) Read(p []byte) (int, error)  { return c.rd.read(p) }
@@ -129,6 +133,9 @@ func (c *vpC12SrvConn) Close() error {
 		c.wr.closeW()
 		c.rd.closeR()
 		close(c.closed)
+	}
+	if c.closeErr {
+		return errors.New("vpC12: close: connection reset by peer")
 	}
 	return nil
 }
@@ -657,7 +664,11 @@ func (r *vpC12Run) start(viaListener bool, ipIdx int, kind int, shape int) *vpC1
 	c.cli = &vpC12Client{rd: b2a, wr: a2b, resp: make(chan vpC12Resp, 16)}
 	r.mu.Lock()
 	c.id = len(r.conns)
-	c.srv = &vpC12SrvConn{id: c.id, rd: a2b, wr: b2a, remote: rm.addr, closed: make(chan struct{})}
+	c.srv = &vpC12SrvConn{id: c.id, rd: a2b, wr: b2a, remote: rm.addr, closed: make(chan struct{}),
+		closeErr: rapid.IntRange(0, 4).Draw(r.t, "closeReportsError") == 0}
+	if c.srv.closeErr {
+		vpExtra("c12_connections_whose_close_reports_an_error", 1)
+	}
 	r.conns = append(r.conns, c)
 	r.mu.Unlock()
 	r.wg.Add(1)
